@@ -168,6 +168,12 @@ def run(case: dict, ctx) -> dict:
                 nsec = rng.randrange(1, 400)
                 sfx, lay, m = w.build_flat(rng, nsectors=nsec + rng.choice([0, 0, 1, 7, 64]), tag=tg)
                 cap_j = nsec
+                if rng.random() < 0.3:
+                    # guest data that begins like a sparse extent (an image stored inside the guest, or four unlucky bytes): the
+                    # extent line says FLAT / VMFS, so these are plain bytes
+                    magic = rng.choice([b"KDMV", b"COWD", struct.pack("<Q", 0xCAFEBABE)])
+                    lay.override[0] = (magic + bytes(rng.randrange(256) for _ in range(SECTOR)))[:SECTOR]
+                    res["cnt"]["flat_extents_starting_with_a_sparse_magic"] = res["cnt"].get("flat_extents_starting_with_a_sparse_magic", 0) + 1
             elif kind == "SPARSE":
                 cap_j = rng.randrange(1, 900)
                 sfx, lay, m = w.build_hosted(rng, capacity=cap_j, grain=rng.choice([1, 8, 16]), ngte=64, placement="shuffle", tag=tg)
@@ -318,6 +324,12 @@ def run(case: dict, ctx) -> dict:
         st = {g: rng.choice("AAZ") for g in picks}
         st[ngr - 1] = "A"
         st[(1 << 32) // grain] = "A"
+        # a run of explicitly zeroed grains longer than any plausible scratch buffer (40 ... 150 MiB), followed by data
+        zrun_at = rng.randrange(ngte, ngr - 4000)
+        zrun_len = rng.choice([660, 1100, 2400])
+        for g in range(zrun_at, zrun_at + zrun_len):
+            st[g] = "Z"
+        st[zrun_at + zrun_len] = "A"
         sf, layer, meta = w.build_hosted(rng, capacity=cap, grain=grain, ngte=ngte, states=st, placement=placement, tag=tag)
     size = meta["size"]
     model = Model(size, [layer])
@@ -360,6 +372,14 @@ def run(case: dict, ctx) -> dict:
     continuation_reads(v, model, reqs, rng, res, MECH)
     fault_retry_reads(v, model, reqs, rng, res, MECH)
     compare_reads(v, model, reqs, res, MECH)
+    if k == "bigcap" and not res["viol"]:
+        # single requests of 33 ... 160 MiB across one uninterrupted run of absent (and of zeroed) grains, ending in stored data
+        huge = [(max(0, zrun_at * gb - rng.randrange(0, 3 * gb)), (zrun_len + 2) * gb + rng.randrange(0, gb))]
+        a_grain = rng.choice(sorted(g for g, s_ in st.items() if s_ == "A" and g * gb > (200 << 20) and not zrun_at - 4000 < g < zrun_at + 4000))
+        lead = rng.choice([33 << 20, 65 << 20, 129 << 20]) + rng.randrange(0, gb)
+        huge.append((a_grain * gb - lead, lead + gb + rng.randrange(0, gb)))
+        compare_reads(v, model, huge, res, MECH, byte_cap=1 << 30)
+        res["cnt"]["requests_over_32MiB"] = len(huge)
     # sector interface
     total = meta["capacity"]
     for _ in range(10):
